@@ -35,3 +35,6 @@ Definition src_consistent (m : mtp) : bool :=
   | Some (_, false) => negb (mtp_mem m gen_b58_to) && negb (mtp_mem m gen_legacy_keys)
   | None => negb (mtp_mem m gen_v2_forward) && negb (mtp_mem m gen_b58_to) && negb (mtp_mem m gen_legacy_keys)
   end.
+
+(* SendToDID's switch after the media type selection *)
+Definition src_v1_only (m : mtp) : bool := mtp_mem m gen_todid_keeps_sender.
